@@ -3,6 +3,7 @@ package idp
 import (
 	"math/rand"
 	"strconv"
+	"strings"
 
 	"github.com/beevik/etree"
 )
@@ -116,7 +117,7 @@ func (b *Builder) Text(el *etree.Element, s string) {
 		if k < len(r) {
 			el.AddChild(etree.NewText(string(r[k:])))
 		}
-	case mode == 2 && len(r) >= 1 && !containsCDEnd(s):
+	case mode == 2 && len(r) >= 1 && !containsCDEnd(s) && !strings.ContainsRune(s, '\r'): // a CDATA section cannot carry a CR
 		k := b.Rng.Intn(len(r) + 1)
 		if k > 0 {
 			el.AddChild(etree.NewText(string(r[:k])))
